@@ -67,7 +67,7 @@ def shards(tier):
 
 def floors(tier):
     f = {"histories": 400, "operations": 5000, "probes_compared": 30000, "objects_probed_after_5plus_later_ops": 1000,
-         "versioned_create_without_id": 50, "untouched_twins_probed_later": 200, "named_type_verdicts": 5000, "versioned_create_reusing_a_name": 60, "versioned_create_with_private_scheme_id": 30, "versioned_create_with_fragment_only_difference": 30, "ambient_snapshots_compared": 4000}
+         "versioned_create_without_id": 50, "untouched_twins_probed_later": 200, "named_type_verdicts": 5000, "scripted_histories": 30, "versioned_create_reusing_a_name": 60, "versioned_create_with_private_scheme_id": 30, "versioned_create_with_fragment_only_difference": 30, "ambient_snapshots_compared": 4000}
     for op in ("redefine", "redefine_many", "remove", "extend_override", "extend_typechecker", "extend_nochange", "create",
                "create_version", "extend_version", "create_default_types", "validator_types", "checks", "cls_checks", "formats_subset", "validator_twins", "validator_named_types"):
         f["op:" + op] = 150
@@ -609,12 +609,27 @@ def child(tier, seed, shard, nshards, ops, base_draft):
     return c.result()
 
 
+def scripted_histories(shard):
+    """Fixed operation sequences (independent of the run's random stream) that dwell on one family of operations each: what a
+    family was added for must not depend on how often the random histories happen to combine it with the right neighbours."""
+    def seq(kinds, base):
+        return [{"op": k, "r": base * 1000 + j * 37 + shard} for j, k in enumerate(kinds)]
+    cdt, vt, nt = "create_default_types", "validator_types", "validator_named_types"
+    return [seq([cdt] * 5 + [vt, vt, cdt, vt, vt, vt] * 3, 11), seq([vt, cdt, vt, nt, cdt, vt, vt, nt, vt, cdt, vt, vt], 12),
+            seq(["create_version", "extend_version", "validator_twins", "create_version", "create", "extend_version", "create_version", "validator_twins"] * 2, 13),
+            seq(["checks", "cls_checks", "formats_subset", "checks", "cls_checks", "formats_subset", "extend_nochange", "checks"] * 2, 14),
+            seq(["redefine", "redefine_many", "remove", "extend_typechecker", "redefine", "extend_override", "remove", "redefine_many", "extend_override", "extend_nochange"] * 2, 15)]
+
+
 def run(ctx):
     from vf.props.c18 import fork_run
     rng = ctx.rng
+    histories = [(ops, impl.DRAFTS[j % 4], True) for j, ops in enumerate(scripted_histories(ctx.shard))]
     for i in range(ctx.scale(60, 1000)):
-        ops = gen_ops(rng)
-        d = impl.DRAFTS[i % 4]
+        histories.append((gen_ops(rng), impl.DRAFTS[i % 4], False))
+    for i, (ops, d, scripted) in enumerate(histories):
+        if scripted:
+            ctx.count("scripted_histories")
         st, res = fork_run(lambda: child(ctx.tier, ctx.seed, ctx.shard, ctx.nshards, ops, d))
         if st != "ok":
             ctx.count("child_failed")
